@@ -225,6 +225,29 @@ def handle (args : List String) : String :=
     match e with
     | some e => (match assocIndex e with | .ok true => "ok" | .ok false => "error" | .panic => "panic")
     | none => "bad-op"
+  | "resolve" :: start :: ents =>
+    -- resolve <start name> <name:kind:target>*  (kind u s n i a; unknown names are unset)
+    let parse (t : String) : Option (Bytes × Var) :=
+      match t.splitOn ":" with
+      | [n, k, tg] =>
+        let kind? : Option VKind := match k with
+          | "u" => some .unknown | "s" => some .string | "n" => some .nameRef
+          | "i" => some .indexed | "a" => some .assoc | _ => none
+        match ofHex n, kind?, ofHex tg with
+        | some n, some kd, some tg => some (n, ⟨kd, tg⟩)
+        | _, _, _ => none
+      | _ => none
+    match ofHex start, ents.mapM parse with
+    | some st, some es =>
+      let env : Bytes → Var := fun n => match es.find? (fun e => e.1 == n) with
+        | some e => e.2
+        | none => ⟨.unknown, []⟩
+      let (name, v) := resolve env (env st)
+      let ks := match v.kind with
+        | .unknown => "u" | .string => "s" | .nameRef => "n" | .indexed => "i" | .assoc => "a"
+        | .keepValue => "k"
+      toHex name ++ " " ++ ks ++ " " ++ (match appendKind v.kind with | .ok _ => "ok" | .panic => "panic")
+    | _, _ => "bad-op"
   | _ => "bad-op"
 
 end ShVerif.Drv.C28
